@@ -191,8 +191,16 @@ def check(case):
                 n_t, n_d, n_c = ref.pop_n_par(part, n_ids), ref.pop_n_dim(part), ref.pop_n_cov(part)
                 pm = ref.build_pop(part, None, n_ids)
                 pm.set_n_ids(n_ids)
-                kk = {} if n_c == 0 else {'covariates': cov[:, c0:c0 + n_c]}
-                tot += pm.compute_log_likelihood(theta[t0:t0 + n_t].copy(), x[:, d0:d0 + n_d].copy(), **kk)
+                kk = {} if n_c == 0 else {'covariates': cov[:, c0:c0 + n_c]}   # (a view, as the composed model passes it)
+                x_p = x[:, d0:d0 + n_d].copy()
+                if part['kind'] == 'cov' and part['base']['kind'] in ('pooled', 'hetero'):
+                    # point-mass values under a covariate shift: taken from THIS part's own transform of these arrays (the
+                    # last bits of theta + beta * chi depend on the alignment of the arrays; section 9.5, log entry 45)
+                    x_p = np.asarray(pm.compute_individual_parameters(theta[t0:t0 + n_t].copy(), x_p.copy(), **kk),
+                                     dtype=float)
+                    case.close(x_p, x[:, d0:d0 + n_d], rtol=1e-12, what='individual values of a covariate-shifted point '
+                               'mass: the part on its own vs inside the composition')
+                tot += pm.compute_log_likelihood(theta[t0:t0 + n_t].copy(), x_p, **kk)
                 t0, d0, c0 = t0 + n_t, d0 + n_d, c0 + n_c
             case.close(m.compute_log_likelihood(theta.copy(), x.copy(), **kw), tot, rtol=1e-9,
                        what='composed value vs sum of parts')
